@@ -7,6 +7,7 @@
 //! (`alpha`, `rho`, `nsupport`, `weighted_sum`, `predict`, `Display`, `Debug`) against the dual
 //! feasibility / KKT conditions recomputed in f64 with the harness' own kernel function.
 
+mod builder;
 mod data;
 mod layout;
 mod oracle;
@@ -21,8 +22,9 @@ use oracle::{Counters, Obs};
 use serde::{Deserialize, Serialize};
 use std::sync::atomic::{AtomicU64, Ordering};
 
-#[derive(Clone, Debug, Serialize, Deserialize, PartialEq)]
+#[derive(Clone, Debug, Serialize, Deserialize, PartialEq, Default)]
 pub enum Kern {
+    #[default]
     Linear,
     Gaussian(f64),
     Poly(f64, f64),
@@ -37,6 +39,12 @@ pub enum Problem {
     NuSvr { nu: f64, c: f64 },
 }
 
+impl Default for Problem {
+    fn default() -> Self {
+        Problem::OneClass { nu: 0.5 }
+    }
+}
+
 impl Problem {
     pub fn tag(&self) -> &'static str {
         match self {
@@ -49,7 +57,7 @@ impl Problem {
     }
 }
 
-#[derive(Clone, Debug, Serialize, Deserialize)]
+#[derive(Clone, Debug, Serialize, Deserialize, Default)]
 pub struct Case {
     pub dataset: String,
     pub x: Vec<Vec<f64>>,
@@ -63,6 +71,13 @@ pub struct Case {
     /// "" = KKT sweep (shrinking off/on through all oracles), "layout" = memory-layout family
     #[serde(default)]
     pub family: String,
+    /// builder family only: "bool" | "pr" | "oneclass" | "reg", constructor "params" | "new" | "default", setter sequence
+    #[serde(default)]
+    pub target_kind: String,
+    #[serde(default)]
+    pub ctor: String,
+    #[serde(default)]
+    pub ops: Vec<builder::Op>,
 }
 
 /// Float types the subject is instantiated with. Regression `Fit` / `Predict` exist only for the
@@ -73,6 +88,9 @@ pub trait SvmFloat: linfa::Float {
     fn predict_reg(m: &Svm<Self, Self>, x: &Array2<Self>) -> Array1<Self>;
     fn fit_reg_view(p: SvmParams<Self, Self>, ds: &DatasetBase<ArrayView2<Self>, ArrayView1<Self>>) -> Result<Svm<Self, Self>, SvmError>;
     fn predict_reg_any<D: NdData<Elem = Self>>(m: &Svm<Self, Self>, x: &ArrayBase<D, Ix2>) -> Array1<Self>;
+    fn predict_inplace_reg(m: &Svm<Self, Self>, x: &Array2<Self>, buf: &mut Array1<Self>);
+    fn predict_one(m: &Svm<Self, Self>, x: ArrayView1<Self>) -> Self;
+    fn predict_one_owned(m: &Svm<Self, Self>, x: Array1<Self>) -> Self;
 }
 macro_rules! impl_svm_float {
     ($t:ty) => {
@@ -88,6 +106,15 @@ macro_rules! impl_svm_float {
                 p.fit(ds)
             }
             fn predict_reg_any<D: NdData<Elem = Self>>(m: &Svm<Self, Self>, x: &ArrayBase<D, Ix2>) -> Array1<Self> {
+                m.predict(x)
+            }
+            fn predict_inplace_reg(m: &Svm<Self, Self>, x: &Array2<Self>, buf: &mut Array1<Self>) {
+                linfa::traits::PredictInplace::predict_inplace(m, x, buf)
+            }
+            fn predict_one(m: &Svm<Self, Self>, x: ArrayView1<Self>) -> Self {
+                m.predict(x)
+            }
+            fn predict_one_owned(m: &Svm<Self, Self>, x: Array1<Self>) -> Self {
                 m.predict(x)
             }
         }
@@ -108,7 +135,7 @@ pub(crate) fn with_kernel<F: SvmFloat, T>(p: SvmParams<F, T>, k: &Kern) -> SvmPa
     }
 }
 
-fn to_arr<F: SvmFloat>(rows: &[Vec<f64>]) -> Array2<F> {
+pub(crate) fn to_arr<F: SvmFloat>(rows: &[Vec<f64>]) -> Array2<F> {
     let d = rows.first().map_or(0, |r| r.len());
     Array2::from_shape_fn((rows.len(), d), |(i, j)| F::cast(rows[i][j]))
 }
@@ -277,6 +304,8 @@ fn run_case_inner(case: &Case, v: &mut Vec<Violation>) -> Counters {
     match (case.family.as_str(), case.float.as_str()) {
         ("layout", "f32") => layout::run_typed::<f32>(case, v),
         ("layout", "f64") => layout::run_typed::<f64>(case, v),
+        ("builder", "f32") => builder::run_typed::<f32>(case, v),
+        ("builder", "f64") => builder::run_typed::<f64>(case, v),
         ("", "f32") => run_typed::<f32>(case, v),
         ("", "f64") => run_typed::<f64>(case, v),
         _ => panic!("bad case family / float"),
@@ -354,7 +383,8 @@ fn main() {
          Layout family: 5 datasets x n in {{12}} quick / {{12,40}} thorough x linear / Gaussian(.5) / polynomial(1,3) x one or two parameter points per problem type x f32 / f64 x shrinking off/on \
          (x calibrated for classification): the records are given to fit as standard-layout view, column-major owned array, transposed view of a feature-major array, \
          reversed-row view of a reversed copy, every-second-row view of an array whose other rows are NaN, and the standard-layout model is applied (predict, weighted_sum) to the \
-         training and new records in the same five layouts plus single samples held in strided / reversed 1-D buffers.",
+         training and new records in the same five layouts plus single samples held in strided / reversed 1-D buffers; the same cases also call predict_inplace into poisoned / reused buffers and the single-sample predict forms. \
+         Builder family: on overlapping / cloud / noisy-line n = 12, for 9 groups of real setters (kernel setter, problem-type setter, eps, shrinking, platt) every permutation, plus for every decoy (other kernel, other problem type incl. the deprecated c_eps / nu_eps, other eps / shrinking / platt) every permutation in which the decoy precedes the setter that overwrites it; constructors params() / new() / default(); f64 and every fourth sequence in f32.",
         sizes
     ));
     ctx.assume("oracle kernel = harness' own f64 implementation of <x,x'>, exp(-|x-x'|^2/eps), (<x,x'>+c)^d on the coordinates as rounded to the subject's float type; f_i = sum_j alpha_j K_ij - rho from the PUBLISHED alpha / rho");
@@ -366,6 +396,8 @@ fn main() {
     ctx.assume("nu-SVR oracle: |alpha_i| <= C, sum alpha_i = 0, a common tube half-width e >= 0 must exist (free: sign(alpha_i)(y_i-f_i) = e, bounded: >= e, zero: |y_i-f_i| <= e, all within tau), sum|alpha_i| <= C*nu*n, and = C*nu*n when e > 0 (complementary slackness of the nu constraint)");
     ctx.assume("calibrated models: alpha / rho / weighted_sum bit-identical to the uncalibrated model of the same parameters; Pr in [0,1] and weakly monotone in the model's own decision value with a slack of 4 f32 ulp (Pr is computed in f32); a decision value of exactly 0 has no sign (either label accepted)");
     ctx.assume("layout family: every kernel entry is computed from two rows in an element order that does not depend on the memory layout, so everything published (alpha, rho, nsupport, Display, weighted_sum, labels, values, Pr) must be BIT-identical to the standard-layout run; targets are always passed contiguous (fit documents nothing about strided targets); no panic for non-contiguous records is documented for linfa-svm");
+    ctx.assume("builder family: reference = a plain record updated with the rustdoc effect of each SvmParams setter (new(): C (1,1), eps 1e-7, no shrinking, linear kernel, Platt defaults; pos_neg_weights / c_svr / c_eps write C and clear nu, nu_weight / nu_svr / nu_eps write nu and clear C, the deprecated c_eps / nu_eps also write the solver eps; last write wins); the checked parameters' getters must equal it and the fit must be bit-identical to the fit of the canonical construction (kernel, problem type, eps, shrinking, platt) of the same final state");
+    ctx.assume("stale buffers: predict_inplace into a buffer pre-filled with the opposite labels / a poison Pr / NaN, and into a buffer reused from a previous different batch, and single-sample predict, must reproduce the plain batch predict bit for bit");
     ctx.assume("termination: SolverState::solve is bounded by 10^7 iterations; a fit that reports 'Reached maximal iterations' and violates KKT is reported as not converged; a case that does not return within 900 s wall is reported as non-terminating");
 
     // ---------------- enumerate ----------------
@@ -469,6 +501,7 @@ fn main() {
                             eps: e,
                             float: f.to_string(),
                             family: String::new(),
+                            ..Default::default()
                         });
                     }
                 }
@@ -492,7 +525,7 @@ fn main() {
                     if !thorough && !(k == Kern::Linear && pi == 1) {
                         continue;
                     }
-                    cases.push(Case { dataset: d.id.clone(), x: d.x.clone(), labels: d.labels.clone(), targets: d.targets.clone(), probes: d.probes.clone(), kernel: k.clone(), problem: p.clone(), eps: 1e-3, float: "f64".into(), family: String::new() });
+                    cases.push(Case { dataset: d.id.clone(), x: d.x.clone(), labels: d.labels.clone(), targets: d.targets.clone(), probes: d.probes.clone(), kernel: k.clone(), problem: p.clone(), eps: 1e-3, float: "f64".into(), family: String::new(), ..Default::default() });
                     size_cases += 1;
                 }
             }
@@ -513,12 +546,83 @@ fn main() {
         for k in [Kern::Linear, Kern::Gaussian(0.5), Kern::Poly(1.0, 3.0)] {
             for p in &problems {
                 for f in floats {
-                    cases.push(Case { dataset: d.id.clone(), x: d.x.clone(), labels: d.labels.clone(), targets: d.targets.clone(), probes: d.probes.clone(), kernel: k.clone(), problem: p.clone(), eps: 1e-3, float: f.to_string(), family: "layout".into() });
+                    cases.push(Case { dataset: d.id.clone(), x: d.x.clone(), labels: d.labels.clone(), targets: d.targets.clone(), probes: d.probes.clone(), kernel: k.clone(), problem: p.clone(), eps: 1e-3, float: f.to_string(), family: "layout".into(), ..Default::default() });
                     layout_cases += 1;
                 }
             }
         }
     }
+    // ---------------- builder-history family ----------------
+    let mut builder_cases = 0usize;
+    {
+        use builder::Op;
+        let cls = data::overlapping(12);
+        let unl = data::generic_cloud(12);
+        let reg = data::line_noisy(12);
+        let common_decoys = |k: usize, e: usize, s: usize| vec![(Op::Linear, k), (Op::Gaussian(5.0), k), (Op::Eps(0.1), e), (Op::Shrinking(false), s)];
+        // (target kind, dataset, real setters, decoys (setter, index of the real setter that overwrites it))
+        let mut groups: Vec<(&str, &Data, Vec<Op>, Vec<(Op, usize)>)> = Vec::new();
+        for kind in ["bool", "pr"] {
+            let mut real = vec![Op::Gaussian(0.5), Op::PosNeg(1.0, 10.0), Op::Eps(1e-3), Op::Shrinking(true)];
+            let mut real2 = vec![Op::WithKernelGaussian(0.5), Op::NuWeight(0.5), Op::Eps(1e-3), Op::Shrinking(true)];
+            if kind == "pr" {
+                real.push(Op::WithPlattMaxiter(200));
+                real2 = vec![Op::Poly(1.0, 3.0), Op::NuWeight(0.5), Op::Eps(1e-3), Op::WithPlattMaxiter(200)];
+            }
+            let mut d1 = common_decoys(0, 2, 3);
+            d1.push((Op::NuWeight(0.1), 1));
+            groups.push((kind, &cls, real, d1));
+            let mut d2 = vec![(Op::Linear, 0), (Op::Eps(0.1), 2), (Op::PosNeg(100.0, 100.0), 1)];
+            if kind == "bool" {
+                d2.push((Op::Shrinking(false), 3));
+            } else {
+                d2.push((Op::WithPlattMaxiter(3), 3));
+            }
+            groups.push((kind, &cls, real2, d2));
+        }
+        {
+            let mut d = common_decoys(0, 2, 3);
+            d.push((Op::PosNeg(7.0, 7.0), 1));
+            groups.push(("oneclass", &unl, vec![Op::Gaussian(0.5), Op::NuWeight(0.5), Op::Eps(1e-3), Op::Shrinking(true)], d));
+        }
+        {
+            let mut d = common_decoys(0, 2, 3);
+            d.extend([(Op::NuSvr(0.5, None), 1), (Op::CEps(5.0, 1e-2), 1), (Op::NuEps(0.3, 1e-2), 1)]);
+            groups.push(("reg", &reg, vec![Op::Gaussian(0.5), Op::CSvr(1.0, Some(0.2)), Op::Eps(1e-3), Op::Shrinking(true)], d));
+            let d2 = vec![(Op::Gaussian(5.0), 0), (Op::CSvr(9.0, None), 1), (Op::CEps(5.0, 1e-2), 1), (Op::Eps(0.1), 2)];
+            groups.push(("reg", &reg, vec![Op::Poly(1.0, 3.0), Op::NuSvr(0.5, Some(2.0)), Op::Eps(1e-3), Op::Shrinking(true)], d2));
+            // the deprecated setters as the real ones (they also write the solver eps: the last writer wins)
+            let d3 = vec![(Op::CSvr(9.0, Some(0.3)), 1), (Op::Eps(0.1), 2)];
+            groups.push(("reg", &reg, vec![Op::Linear, Op::CEps(1.0, 1e-2), Op::Eps(1e-3), Op::Shrinking(true)], d3.clone()));
+            groups.push(("reg", &reg, vec![Op::Gaussian(0.5), Op::NuEps(0.5, 1e-2), Op::Eps(1e-3), Op::Shrinking(true)], d3));
+        }
+        for (gi, (kind, d, real, decoys)) in groups.iter().enumerate() {
+            let seqs = builder::sequences(real, decoys);
+            for (si, ops) in seqs.iter().enumerate() {
+                // f32 for every fourth sequence, alternative constructors for the plain orders of the real setters
+                let mut variants: Vec<(&str, &str)> = vec![("f64", "params")];
+                if si % 4 == 0 {
+                    variants.push(("f32", "params"));
+                }
+                if ops.len() == real.len() && (thorough || si < 6) {
+                    variants.push(("f64", "new"));
+                    variants.push(("f64", "default"));
+                }
+                for (f, ctor) in variants {
+                    cases.push(Case { dataset: format!("{}#builder{}", d.id, gi), x: d.x.clone(), labels: d.labels.clone(), targets: d.targets.clone(), probes: d.probes.clone(), float: f.into(), family: "builder".into(), target_kind: kind.to_string(), ctor: ctor.into(), ops: ops.clone(), ..Default::default() });
+                    builder_cases += 1;
+                }
+            }
+        }
+        // the bare constructors: getters must show the documented defaults, fit must equal the canonical default
+        for (kind, d) in [("bool", &cls), ("reg", &reg)] {
+            for ctor in ["params", "new", "default"] {
+                cases.push(Case { dataset: format!("{}#builder_bare", d.id), x: d.x.clone(), labels: d.labels.clone(), targets: d.targets.clone(), probes: d.probes.clone(), float: "f64".into(), family: "builder".into(), target_kind: kind.into(), ctor: ctor.into(), ops: vec![], ..Default::default() });
+                builder_cases += 1;
+            }
+        }
+    }
+    ctx.extra("builder_family_cases", json!(builder_cases));
     ctx.extra("kkt_sweep_cases", json!(kkt_cases));
     ctx.extra("size_family_cases_n1025", json!(size_cases));
     ctx.extra("layout_family_cases", json!(layout_cases));
